@@ -6,9 +6,9 @@
    rename_defined_name_in_node over the tree and stores to_rc_format of it; the name table
    parsed_defined_names is rebuilt with the new key.  rename_sheet_by_index (new_empty.rs)
    re-parses every defined-name formula and stores it back — in English since commit 9f60d5e.
-   Findings: F67 remains for the rename loop of update_defined_name, which still parses with the
-   active locale / language (C32_rename_in_formulas_refuted); the capture of a free identifier by
-   the new name (C32_rename_capture); F70 / F71 (harness). *)
+   update_defined_name's loop likewise since commit 0ec334c (finding F67 is repaired).
+   Findings left: the capture of a free identifier by the new name (C32_rename_capture); F70 / F71
+   (harness). *)
 From IronCalc Require Import Base.Prelude Codec.RefA1 Syntax.Token Syntax.Ast Syntax.Printer Syntax.Parser Syntax.Shape
   Syntax.Localize Syntax.LocalizeProofs Syntax.RenameName Syntax.RenameNameProofs Syntax.RenameNameExamples.
 From IronCalc Require Sheet.Persist Sheet.PersistProofs.
@@ -80,31 +80,19 @@ Proof. exact other_sheet_rename_keeps_formula. Qed.
 Print Assumptions C32_other_sheets.
 
 (* ---- renaming a name updates every formula that uses it -------------------------------------------
-   update_defined_name re-reads every stored formula, runs the pass and prints the stored form.  In
-   the English / decimal-point configuration the new stored text is the print of the renamed tree
-   (with C32_rename_name: exactly the uses of the name are rewritten). *)
-Theorem C32_rename_in_formulas_partial :
-  forall nm env (lower : text -> text) name scope new_name e,
+   update_defined_name re-reads every stored formula with the ENGLISH parser (since commit 0ec334c;
+   the user's locale and language are saved and restored around the loop), runs the pass and
+   prints the stored form.  For EVERY locale [dot_active] and language [nm_active] of the user the
+   new stored text is the stored print of the renamed tree — the C09 theorem in the stored form
+   (its premises: a tree the parser returns, none of the three associative bare pairs, F62);
+   with C32_rename_name: exactly the uses of the name are rewritten. *)
+Theorem C32_rename_in_formulas :
+  forall (dot_active : bool) (nm_active nm : names) env (lower : text -> text) name scope new_name e,
   image (m_rc_of true) nm env e = true -> no_bad false e = true -> lower_stable nm e = true ->
-  formula_after_name_rename true nm nm env lower name scope new_name (print (m_rc_of true) nm e)
+  formula_after_name_rename dot_active nm_active nm env lower name scope new_name (print (m_rc_of true) nm e)
   = print (m_rc_of true) nm (rename lower name scope new_name e).
 Proof. exact name_rename_in_formula. Qed.
-Print Assumptions C32_rename_in_formulas_partial.
-
-(* ... but that loop still parses with the ACTIVE language and locale (finding F67, the half that
-   commit 9f60d5e did not touch).  French: TRIM(G) becomes MIRR(H) when G is renamed to H; a
-   comma-decimal locale: SUM(G,2) does not parse, is copied, and still names G *)
-Theorem C32_rename_in_formulas_refuted :
-  (image (m_rc_of true) (names_of 0) env_g trim_g = true /\
-   formula_after_name_rename true (names_of 3) (names_of 0) env_g lower t_g None t_h (print (m_rc_of true) (names_of 0) trim_g)
-     = print (m_rc_of true) (names_of 0) (EFun 222 [EDefName t_h None f_g]) /\
-   print (m_rc_of true) (names_of 0) (EFun 222 [EDefName t_h None f_g]) <> print (m_rc_of true) (names_of 0) (rename lower t_g None t_h trim_g)) /\
-  (image (m_rc_of true) (names_of 0) env_g sum_g2 = true /\
-   formula_after_name_rename false (names_of 0) (names_of 0) env_g lower t_g None t_h (print (m_rc_of true) (names_of 0) sum_g2)
-     = print (m_rc_of true) (names_of 0) sum_g2 /\
-   print (m_rc_of true) (names_of 0) sum_g2 <> print (m_rc_of true) (names_of 0) (rename lower t_g None t_h sum_g2)).
-Proof. exact (conj name_rename_refuted_language name_rename_refuted_locale). Qed.
-Print Assumptions C32_rename_in_formulas_refuted.
+Print Assumptions C32_rename_in_formulas.
 
 (* ---- both file round trips: the binary format keeps workbook.defined_names (C26) ---------------- *)
 Theorem C32_roundtrip_binary :
@@ -127,5 +115,11 @@ Print Assumptions C32_roundtrip_binary.
 Example C32_nonvacuous :
   (image en11 (names_of 0) env1 lam_sum = true /\ no_bad false lam_sum = true /\ lower_stable (names_of 0) lam_sum = true /\
    image en11 (names_of 0) env1 ref_a1 = true) /\
-  rename lower t_name1 None t_renamed uses = ESum SAdd (dn t_renamed) (EFun 80 [dn t_renamed; dn t_other]).
-Proof. exact (conj other_sheet_premises rename_example). Qed.
+  rename lower t_name1 None t_renamed uses = ESum SAdd (dn t_renamed) (EFun 80 [dn t_renamed; dn t_other]) /\
+  (* the former F67 witnesses: a French user renames G in TRIM(G); a comma-locale user in SUM(G,2) *)
+  ((image (m_rc_of true) (names_of 0) env_g trim_g = true /\ no_bad false trim_g = true /\ lower_stable (names_of 0) trim_g = true) /\
+   formula_after_name_rename true (names_of 3) (names_of 0) env_g lower t_g None t_h (print (m_rc_of true) (names_of 0) trim_g)
+     = print (m_rc_of true) (names_of 0) (EFun 137 [EDefName t_h None f_g]) /\
+   formula_after_name_rename false (names_of 0) (names_of 0) env_g lower t_g None t_h (print (m_rc_of true) (names_of 0) sum_g2)
+     = print (m_rc_of true) (names_of 0) (EFun 80 [EDefName t_h None f_g; ENum [50]])).
+Proof. exact (conj other_sheet_premises (conj rename_example name_rename_former_witnesses)). Qed.
